@@ -248,6 +248,7 @@ class Judge:
         self.work = workdir
         self.n = 0
         self.runs = 0
+        self.max_runs = 120      # per case; a witness that is not fully reduced by then is still reported
 
     def newdir(self):
         self.n += 1
@@ -537,7 +538,7 @@ def minimise(judge, model, target, desc, budget=30):
         return desc in mismatches(c, g, views)
 
     rounds = 0
-    while rounds < budget:
+    while rounds < budget and judge.runs < judge.max_runs:
         rounds += 1
         ops = steps(cur, target)
         cands = []
@@ -599,7 +600,7 @@ def cause_of(cat, what, got, via, feats):
         return "defaulted-member-that-is-deleted"
     if what in ("cc", "copy-ctor") and over and "ctor-copy:nonconst" in bare:
         return "copy-ctor-taking-nonconst-ref"
-    if "dtor:pure" in bare and "base" in via and ((what == "abs" and got == 1) or (ctorish and under)) \
+    if "dtor:pure" in bare and via != "self" and ((what == "abs" and got == 1) or (ctorish and under)) \
             and bare <= {"dtor:pure"} | VIRT:
         return "pure-virtual-dtor-inherited-as-pure"
     if what in ("dc", "default-ctor") and under and bare == {"data:ref-init"}:
@@ -618,8 +619,8 @@ def cause_of(cat, what, got, via, feats):
         return "virtual-base-of-base-ignored"
     if "data:array-class" in bare and over and via != "self":
         return "array-member-subobject-ignored"
-    if ctorish and over and via != "self" and nonpub_dtor and bare <= {f.split("@")[0] for f in nonpub_dtor} | \
-            {"ctor-copy:user", "ctor-default:user"}:
+    if ctorish and over and via != "self" and nonpub_dtor and \
+            bare <= {t for t in cg.MEMBER_TEXT if t.startswith("dtor:")} | {"ctor-copy:user", "ctor-default:user"}:
         return "subobject-dtor-inaccessible-ignored-for-ctor"
     return None
 
